@@ -121,6 +121,7 @@ def C07():
                mirjobs.fn_asserts(r"^get_payload_field$", "CHALLENGE buffer offsets", call_model=mirjobs.ntlm_payload_model, assume=mirjobs.ntlm_payload_assume, native=lambda m: mirjobs.NLA_NATIVES[r"^get_payload_field$"])),
         MirJob("c07_mir_panic_sites", "NLA read path (read_ts_server_challenge, read_ts_validate, read_public_certificate, read_challenge_message, get_payload_field, read_target_info, gss_unwrapex): every reachable unwrap/expect/index/panic call is on a justified allow-list",
                mirjobs.panic_sites(mirjobs.NLA_TARGETS, mirjobs.NLA_NATIVES)),
+        MirJob("c07_mir_no_read_loops", "no function of nla/cssp.rs contains a loop: the CredSSP exchange reads each server message once and cannot spin on a closed or stalled connection", mirjobs.acyclic("src/nla/cssp.rs")),
         MirJob("c07_mir_arith", "read_challenge_message / gss_unwrapex / read_target_info: no arithmetic check of their own can fail on wire values",
                mirjobs.multi(mirjobs.fn_asserts(r"ntlm::<impl at src/nla/ntlm\.rs[^>]*>::gss_unwrapex$", "sealed token"),
                              mirjobs.fn_asserts(r"^read_target_info$", "AV pairs"))),
@@ -456,7 +457,9 @@ def C06():
     jobs.append(MirJob("c06_mir_size_closures", "every size/skip closure of the session-phase layouts (share control/data headers, demand-active, deactivate-all, capability set, fast-path update, bitmap data, colour pointer): for every value of the wire field no arithmetic check fails and the requested buffer is <= 131072 bytes",
                        mirjobs.size_closures(r"^(share_control_header|share_data_header|ts_demand_active_pdu|ts_confirm_active_pdu|ts_deactivate_all_pdu|capability_set|ts_fp_update|ts_bitmap_data|ts_colorpointerattribute)::", 131072, "active session")))
     jobs.append(MirJob("c06_mir_panic_sites", "session read path (global::Client::read and its readers, PDU/DataPDU/FastPathUpdate/Capability constructors from wire data, mcs/x224/tpkt read): every reachable unwrap/expect/index/panic call is on a justified allow-list",
-                       mirjobs.panic_sites(mirjobs.SESSION_TARGETS, {r"read_fast_path$": mirjobs.FASTPATH_NATIVE})))
+                       mirjobs.panic_sites(mirjobs.SESSION_TARGETS, {r"read_fast_path$": mirjobs.FASTPATH_NATIVE, r"read_(demand_active|synchronize|control|font_map|data)_pdu$|from_(stream|control|pdu)$|from_capability_set$": mirjobs.SESSION_NATIVE})))
+    jobs.append(MirJob("c06_mir_data_pdu_guard", "DataPDU::from_pdu (which indexes fields that only data PDUs have) is reached only after the share-control type was compared with PDUTYPE_DATAPDU, in every activation-phase reader",
+                       mirjobs.guarded_by(r"^global::<impl at src/core/global\.rs[^>]*>::read_(synchronize_pdu|control_pdu|font_map_pdu|data_pdu)$", r"<PDUType as PartialEq>::(eq|ne)$", r"from_pdu$", "DataPDU::from_pdu", native=mirjobs.SESSION_NATIVE)))
     jobs.append(MirJob("c06_mir_session_arith", "read_fast_path / read_data_pdu / read_demand_active_pdu / PDU::from_control / DataPDU::from_pdu / FastPathUpdate::from_fp / Capability::from_capability_set: no arithmetic check (overflow, division, index) of their own can fail on wire values",
                        mirjobs.multi(*[mirjobs.fn_asserts(rx, "session PDU field", loop_bound=1, native=(lambda m: mirjobs.FASTPATH_NATIVE) if "fast_path" in rx else None)
                                        for rx in (r"^global::<impl at src/core/global\.rs[^>]*>::read_fast_path$", r"^global::<impl at src/core/global\.rs[^>]*>::read_data_pdu$",
